@@ -309,8 +309,8 @@ type c04State struct {
 	older   [][]*plenccodec.Descriptor // per target: descriptors of the same named type with fields removed (another schema version)
 	dreads  int
 	sizes   []uintptr
-	intern  []bool  // the target has intern-tagged fields (known finding D30)
-	calls   []int64 // Unmarshal calls made on the target's instance so far
+	intern  []bool     // the target has intern-tagged fields (known finding D30)
+	calls   []int64    // Unmarshal calls made on the target's instance so far
 	valid   [][][]byte // per target: valid encodings to mutate
 	wd      *mon.Watchdog
 	alloc   *mon.AllocMeter
